@@ -308,7 +308,7 @@ class ContractEval:
                 snap = snaps[-1]
                 from .verify import frame_obligations
                 frame_obligations(eng, self, snap["state"], st, snap["lvs"], "%s#loop%d" % (f.short, info["ordinal"]),
-                                  only_objs=set(snap["state"].heap.keys()))
+                                  only_objs=set(info.get("entry_objs") or snap["state"].heap.keys()))
             if info.get("decreases") is not None and snaps:
                 snap = snaps[-1]
                 d0 = snap["measure"]
@@ -323,6 +323,12 @@ class ContractEval:
             lvs.extend(self.ev.lvalues(a, env, st))
         for lv in lvs:
             self.havoc_loc(eng, st, lv, f.short + ".loop")
+        # objects allocated by this activation before the loop (locals, fresh slices) may be written by the body
+        entry = info.get("entry_objs")
+        if entry is not None:
+            for oid in list(st.heap.keys()):
+                if oid not in entry and not str(oid).startswith("g:"):
+                    st.heap[oid] = self.havoc_val(eng, st.heap[oid], f.short + ".local")
         for ins in b["instrs"]:
             if ins["op"] != "Phi":
                 break
